@@ -333,3 +333,9 @@ func TestLongCommandPairs(t *testing.T) {
 	}
 	P.SetExtra("long_command_pair_chains", n)
 }
+
+// Concurrent checks (chain/conc.go) of chains of which some widen the command at a drawn link, on delegation objects
+// that are fresh when the goroutines meet them. Race-detector build.
+var concChainsProp = h.Define(P, "concchains", chain.DrawConcChains, func(c *h.Ctx, cc chain.ConcChains) { chain.RunConcChains(c, cc, "C02") })
+
+func TestConcurrentChains(t *testing.T) { concChainsProp.Check(t) }
